@@ -51,7 +51,11 @@ type Case struct {
 	Buffer       bool   `json:"buffer_level"`
 	Flags        uint16 `json:"flags,omitempty"`
 	ClusterLevel uint8  `json:"cluster_level,omitempty"`
-	Source       string `json:"source"`
+	// AltClusters != 0 (whole-text buffer cases only): the text is shaped a second time
+	// through Buffer.AddRune with cluster values of the caller's choosing: 1 the rune
+	// indices, 2 a strictly increasing relabeling (1000000+5i), 3 all equal, 4 decreasing
+	AltClusters uint8  `json:"alt_clusters,omitempty"`
+	Source      string `json:"source"`
 }
 
 func (c *Case) direction() di.Direction { return di.Direction(c.Dir) }
@@ -261,6 +265,9 @@ func GenCase(seed int64, idx int, faces []corpus.FaceRef, utils string) *Case {
 		if c.RunStart < 0 || c.RunEnd > L || c.RunStart > c.RunEnd {
 			c.RunStart, c.RunEnd = 0, L
 		}
+		if c.RunStart == 0 && c.RunEnd == L && L > 0 && r.Chance(1, 3) {
+			c.AltClusters = uint8(1 + r.Intn(4))
+		}
 		// ranged features
 		for i := range c.Features {
 			if r.Chance(1, 2) {
@@ -299,6 +306,26 @@ type Exec struct {
 	BufDir   harfbuzz.Direction
 	ItemFrom int
 	ItemTo   int
+	// the Buffer.AddRune variant (Case.AltClusters)
+	AltRan   bool
+	AltInfo  []harfbuzz.GlyphInfo
+	AltPos   []harfbuzz.GlyphPosition
+	AltPanic any
+	AltWhere string
+}
+
+// altCluster is the cluster value the AddRune variant gives to rune i of L.
+func altCluster(mode uint8, i, L int) int {
+	switch mode {
+	case 1:
+		return i
+	case 2:
+		return 1000000 + 5*i
+	case 3:
+		return 7
+	default:
+		return 5 * (L - 1 - i)
+	}
 }
 
 // newFace builds a private face of the referenced font with the case's variations.
